@@ -63,6 +63,9 @@ def bounded(tier, seed):
                 if m is None or m.end() != want_end:
                     viol.append({"clause": "tag_pattern_first_close", "input": {"text": s0, "pattern": pat.name},
                                  "got": None if m is None else m.group(0), "want": s0[:want_end]})
+    # function-level restatements (props/funcspecs.py): line predicates, block heuristics, atomic patterns
+    from . import funcspecs as FS
+    evals += FS.block_heuristics(viol) + FS.tag_line_predicates(viol) + FS.atomic_patterns(viol)
     # tag lines stay alone on their own unindented line; enclosed lists/tables stay lists/tables with blank lines
     # (an earlier fenced code block, with an indented closing fence, must not disturb what follows it)
     PREFIXES = ("", "- item\n\n  ```\n  code\n  ```\n\n", " ~~~\ncode {% x %}\n ~~~\n\n", "```\n{% f %}\n- no list\n```\n\npara\n\n")
@@ -88,7 +91,8 @@ def bounded(tier, seed):
                             viol.append({"clause": "block_in_tags_separated", "input": {"text": text, "options": {"width": w, "semantic": sem}}, "got": out})
     return {"evaluations": evals, "distinct_nontrivial": len(distinct), "violations": viol,
             "samples": [{"text": " ".join([WORDS[0], CONSTRUCTS[0], WORDS[2], CONSTRUCTS[4]])}],
-            "rule": "each of the 4 single-tag patterns on opener + every body of <= 3 symbols over a 13-symbol alphabet + closer: the match ends at "
+            "rule": "(also: line_is_list_item / table_row / block_content, the five tag-line predicates and the code-span / HTML-tag / link / "
+                    "paired-tag patterns against independent restatements on enumerated short inputs) each of the 4 single-tag patterns on opener + every body of <= 3 symbols over a 13-symbol alphabet + closer: the match ends at "
                     "the first closer; seeded top-level paragraphs of 2-7 tokens mixing 5 words with 21 atomic constructs (tags whose body holds their own delimiter characters) (incl. multi-backtick code spans holding backticks) x widths (quick {1,3,5,8,12,20,88}, "
                     "thorough 1..20, 40, 88) x both modes: every construct lies within one output line and the whitespace-collapsed text is "
                     "unchanged; 5 tag pairs x {prose, list, table, ordered list, tables without trailing pipes} x 4 preceding contexts (none, fenced code in a list item / with an "
